@@ -3,14 +3,14 @@ C15 — built-in validators decide their documented predicate and explain failur
 
 Model A: `Flatland/C15.lean`; specification B: `Flatland/Spec/C15.lean`.
 
-Main theorem `C15_full` (= `decides`): whenever the documentation makes a promise about a
+Main theorem `C15_partial` (= `decides_partial`): whenever the documentation makes a promise about a
 validator on an element view (`documented v e = some d`), the validator returns exactly the
-verdict `d` without raising and notes a message iff the verdict is false — for every class, with
-no side condition (the former exceptions D-C15-5/6/7 are fixed in /repo: e508833, 5e93603,
-7308ea3, and the model follows the repaired code).  `IsEmail` is decided relative to the opaque
-idna conversion (`isEmail_length_on_idna`: every length assertion is on the converted domain).
-The URL validators are outside `documented` (urlparse is opaque): that part of C15 rests on
-correspondence only.
+verdict `d` without raising and notes a message iff the verdict is false — for every class,
+including the three URL validators (decided over the opaque parse record, `Proofs/C15Url.lean`),
+with ONE side condition: not (`HTTPURLValidator` on an element without a value that is promised
+False) — KF-C15-a, where the code returns True.  The full statement `C15_Full` is refuted by that
+witness (`C15_full_fails`).  `IsEmail` is decided relative to the opaque idna conversion
+(`isEmail_length_on_idna`: every length assertion is on the converted domain).
 -/
 import Flatland.C15
 import Flatland.Spec.C15
@@ -20,18 +20,9 @@ import Proofs.Lemmas.C15Sets
 import Proofs.C16
 import Proofs.Lemmas.C15Messages
 import Proofs.Lemmas.C15Email
+import Proofs.C15Url
 namespace Flatland.C15.Proofs
 open Flatland.C16 Flatland.C15 Flatland.C15.Spec
-
-/-- what is promised for one validator on one view: it returns the verdict `d` (no exception)
-    and makes a `note_error` call exactly when `d` is false -/
-def Decides (v : V) (e : View) (d : Bool) : Prop :=
-  ∃ note, verdict v e = .ok (d, note) ∧ (d = true ↔ note = none)
-
-theorem decides_pass (v e) (h : verdict v e = pass) : Decides v e true :=
-  ⟨none, h, by simp⟩
-theorem decides_fail (v e k i) (h : verdict v e = fail k i) : Decides v e false :=
-  ⟨some ⟨k, i⟩, h, by simp⟩
 
 /-! ### scalars.py -/
 
@@ -772,8 +763,11 @@ example :
 
 /-- **decides** — for every validator class, every parameterisation and every element view:
     whenever the documentation makes a promise (`documented v e = some d`), the validator
-    returns exactly the verdict `d`, without raising, and calls `note_error` iff `d` is false. -/
-theorem decides (v : V) (e : View) (d : Bool) (hd : documented v e = some d) : Decides v e d := by
+    returns exactly the verdict `d`, without raising, and calls `note_error` iff `d` is false —
+    except for `HTTPURLValidator` on an element without a value that is promised False
+    (`HttpNoValue`, KF-C15-a). -/
+theorem decides_partial (v : V) (e : View) (d : Bool) (hd : documented v e = some d)
+    (hk : HttpNoValue v e d = false) : Decides v e d := by
   cases v with
   | present => exact decides_present e d hd
   | isTrue => exact decides_isTrue e d hd
@@ -798,9 +792,9 @@ theorem decides (v : V) (e : View) (d : Bool) (hd : documented v e = some d) : D
   | setWithAllFields => exact decides_setWithAllFields e d hd
   | luhn10 => exact decides_luhn10 e d hd
   | isEmail nl => exact decides_isEmail nl e d hd
-  | urlValidator _ _ => simp [documented] at hd
-  | httpURL _ _ => simp [documented] at hd
-  | urlCanonicalizer _ => simp [documented] at hd
+  | urlValidator s p => exact decides_urlValidator s p e d hd
+  | httpURL ap r f => exact decides_httpURL_partial ap r f e d hd hk
+  | urlCanonicalizer ds => exact decides_urlCanonicalizer ds e d hd
 
 /-- non-vacuity: an Integer that did not convert (`value None`, text kept in `u`) against
     `ValueLessThan(4)` — documented false, and the model says so -/
@@ -813,8 +807,15 @@ example :
 def C15_Full : Prop :=
   ∀ (v : V) (e : View) (d : Bool), documented v e = some d → Decides v e d
 
-/-- the full statement holds of the code as it is now -/
-theorem C15_full : C15_Full := decides
+/-- the strongest true restriction: everything but KF-C15-a -/
+theorem C15_partial :
+    ∀ (v : V) (e : View) (d : Bool), documented v e = some d → HttpNoValue v e d = false →
+      Decides v e d := decides_partial
+
+/-- the full statement is false of the code as it is: `HTTPURLValidator()` on an element without
+    a value returns True although the required scheme and hostname cannot be there (KF-C15-a) -/
+theorem C15_full_fails : ¬ C15_Full := fun h =>
+  C15_HttpFull_fails (fun ap req forb e d hd => h _ e d hd)
 
 /-- witness of the fixed D-C15-7: `MapEqual` with its own default transform on two equal
     fields now returns True -/
@@ -948,7 +949,7 @@ theorem messages (table : List BuiltinMsg) (v : V) (e : View) (errors : List Str
     error list afterwards is the old one plus exactly the complete expansion `s` of the text
     chosen for that message — unless the very same text `s` was already recorded. -/
 theorem false_verdict_records_one (v : V) (e : View) (errors : List Str)
-    (hd : documented v e = some false) :
+    (hd : documented v e = some false) (hk : HttpNoValue v e false = false) :
     ∃ n o msg text segs s, verdict v e = .ok (false, some n) ∧
       messageOf Flatland.Generated.C16.builtinMessages v.className n.key = some msg ∧
       chooseMessage (envOf v e n.info) none msg = .ok text ∧
@@ -959,7 +960,7 @@ theorem false_verdict_records_one (v : V) (e : View) (errors : List Str)
         (fun k => (rawLookup (envOf v e n.info).targets k).getD .none) segs ∧
       run v e errors = .ok o ∧ o.verdict = false ∧ o.value = valueAfter v e ∧
       o.errors = (if s ∈ errors then errors else errors ++ [s]) := by
-  obtain ⟨note, hv, hiff⟩ := decides v e false hd
+  obtain ⟨note, hv, hiff⟩ := decides_partial v e false hd hk
   cases note with
   | none => exact absurd (hiff.2 rfl) (by simp)
   | some n =>
@@ -971,12 +972,35 @@ theorem false_verdict_records_one (v : V) (e : View) (errors : List Str)
 /-- a true verdict records nothing (corollary of `messages` + the note/verdict link) -/
 theorem true_verdict_records_nothing (table : List BuiltinMsg) (v : V) (e : View)
     (errors : List Str) (o : Outcome) (d : Bool)
-    (hd : documented v e = some d) (h : runWith table v e errors = .ok o) (ht : o.verdict = true) :
+    (hd : documented v e = some d) (hk : HttpNoValue v e d = false)
+    (h : runWith table v e errors = .ok o) (ht : o.verdict = true) :
     o.errors = errors := by
   obtain ⟨note, hv, _, hnone, _⟩ := messages table v e errors o h
-  obtain ⟨note', hv', hiff⟩ := decides v e d hd
+  obtain ⟨note', hv', hiff⟩ := decides_partial v e d hd hk
   rw [hv] at hv'
   cases hv'
   exact hnone (hiff.1 ht)
+
+/-- **independence from validation state**: whatever `.valid` flags and recorded errors the
+    siblings (earlier list members, sibling fields) carry, every validator's verdict, message and
+    resulting value are the same — in particular `NotDuplicated` judges by the siblings' VALUES
+    only (a sibling rejected earlier, by this or another validator, still counts as the first
+    occurrence) -/
+theorem verdict_ignores_validation_state (v : V) (e : View) (st : List (Option Bool × Nat)) :
+    verdict v { e with siblingState := st } = verdict v e ∧
+    valueAfter v { e with siblingState := st } = valueAfter v e ∧
+    documented v { e with siblingState := st } = documented v e := by
+  refine ⟨?_, ?_, ?_⟩ <;> cases v <;> rfl
+
+/-- `notdup_ignores_valid`: the `NotDuplicated` instance -/
+theorem notdup_ignores_valid (e : View) (st : List (Option Bool × Nat)) :
+    verdict .notDuplicated { e with siblingState := st } = verdict .notDuplicated e :=
+  (verdict_ignores_validation_state .notDuplicated e st).1
+
+/-- **note_warning**: a validator reporting through `note_warning` does to the warnings list
+    exactly what it would do to the errors list through `note_error` — so `messages`,
+    `messages_total` and `false_verdict_records_one` hold verbatim for warnings -/
+theorem warn_eq_error (table : List BuiltinMsg) (v : V) (e : View) (l : List Str) :
+    runWarnWith table v e l = runWith table v e l := rfl
 
 end Flatland.C15.Proofs
